@@ -322,3 +322,12 @@ Qed.
 
 Lemma print_pointer_len : forall z, zlen (print_pointer z) <= 18.
 Proof. intros z. unfold print_pointer. rewrite !zlen_cons, zlen_rev. pose proof (hex_rev_len 16 z). lia. Qed.
+
+(* the same with the range given by any bound below the power of ten (used with 2^16, 2^32, 2^64, ...) *)
+Lemma print_unsigned_len' : forall k z bound kb, (1 <= k <= 20)%nat -> bound <= 10 ^ Z.of_nat k -> Z.of_nat k <= kb ->
+  0 <= z < bound -> zlen (print_unsigned z) <= kb.
+Proof. intros k z bound kb Hk Hb Hkb Hz. pose proof (print_unsigned_len k z Hk). lia. Qed.
+
+Lemma print_signed_len' : forall k z lo hi kb, (1 <= k <= 20)%nat -> - 10 ^ Z.of_nat k < lo -> hi <= 10 ^ Z.of_nat k ->
+  Z.of_nat k + 1 <= kb -> lo <= z < hi -> zlen (print_signed z) <= kb.
+Proof. intros k z lo hi kb Hk Hl Hh Hkb Hz. pose proof (print_signed_len k z Hk). lia. Qed.
